@@ -97,6 +97,8 @@ pub struct ChipRf {
     pub preamble: u16,
     /// conducted output power selected by the PA settings, when the combination is one the datasheet tabulates
     pub power_dbm: Option<i16>,
+    /// LoRa sync word as the chip holds it (SX126x: the 16-bit register pair; SX127x: RegSyncWord in the low byte)
+    pub sync: u16,
 }
 
 impl ChipRf {
